@@ -23,7 +23,7 @@ META = {
     "does_not_decide": "absence of cross-talk, lost or duplicated executions under concurrency as observed behaviour; "
                        "termination of server_close with in-flight requests.",
     "rules": {"C12.1": "call-site typestate (who-may-call shutdown, guard scan)", "C12.2": "dominance / post-dominance on normal paths",
-              "C12.3": "provenance + statement scan", "C12.4": "imported C13.3", "C12.5": "imported C02.2, C17.3 + dominance in the constructor"},
+              "C12.3": "provenance + statement scan", "C12.4": "imported C13.3", "C12.5": "imported C02.2, C17.3 + dominance in the constructor", "C12.6": "imported C10.7, C10.7b"},
     "assumptions": ["socketserver.TCPServer.server_close closes the listening socket; ThreadingMixIn.process_request_thread handles and shuts the request down"],
 }
 
@@ -102,3 +102,8 @@ def check(ck):
                "self.__request_pool set first", "the request pool is stored after the server may already accept connections (or is not the given pool)",
                q.loc(fi, store[0]))
     ck.floor("C12.5", 6)
+
+    # ---- C12.6 request-pool accounting (no lost executions): shared with C10.7 / C10.7b ---------------------------
+    from rules import c10
+    common.import_rules(ck, c10, {"C10.7": "C12.6", "C10.7b": "C12.6"})
+    ck.floor("C12.6", 6)
